@@ -32,21 +32,25 @@ def explore(res, rng, n):
         obs = ints(rng, p, -9, 9)
         nobs = rng.choice([0, 1, p, p + 2])
         obs2 = ints(rng, nobs, -9, 9)
+        # coefficient / observation vectors as lists, tuples or arrays ("1d array" in the documentation)
+        kindc = i % 4
+        conv = {0: list, 1: list, 2: (lambda v: np.array(v, dtype=float)), 3: (lambda v: np.array(v, dtype=np.int64))}[kindc]
+        res.stat('coefficients_as_%s' % {0: 'list', 1: 'list', 2: 'float_array', 3: 'int_array'}[kindc])
         with mock.patch.object(np.random, 'normal', side_effect=lambda mu, sigma, size: list(eps[:size])), \
                 mock.patch.object(np.random, 'seed', side_effect=lambda s=None: None):
             outs = {
-                'ar': (lsg.arNormal(N, list(obs), list(phis), 0, 1), f'{N} {enc_list(obs)} {enc_list(phis)} {enc_list(eps)}'),
-                'ma': (lsg.maNormal(N, c, list(thetas), 0, 1), f'{N} {c} {enc_list(thetas)} {enc_list(eps)}'),
-                'arma': (lsg.armaNormal(N, list(obs2), list(phis), list(thetas), 0, 1),
+                'ar': (lsg.arNormal(N, conv(obs), conv(phis), 0, 1), f'{N} {enc_list(obs)} {enc_list(phis)} {enc_list(eps)}'),
+                'ma': (lsg.maNormal(N, c, conv(thetas), 0, 1), f'{N} {c} {enc_list(thetas)} {enc_list(eps)}'),
+                'arma': (lsg.armaNormal(N, conv(obs2), conv(phis), conv(thetas), 0, 1),
                          f'{N} {enc_list(obs2)} {enc_list(phis)} {enc_list(thetas)} {enc_list(eps)}'),
-                'arima': (lsg.arimaNormal(N, c, list(phis), list(thetas), 0, 1),
+                'arima': (lsg.arimaNormal(N, c, conv(phis), conv(thetas), 0, 1),
                           f'{N} {c} {enc_list(phis)} {enc_list(thetas)} {enc_list(eps)}'),
             }
         for k, (out, args) in outs.items():
             res.evaluations += 1
             res.nontrivial.add((k, args))
             res.stat(k + ('_shorter_than_order' if N <= max(p, q) else '_longer_than_order'))
-            o = [int(v) for v in out]
+            o = [int(round(float(v))) for v in out]
             reqs.append(f'{k} {args}')
             meta.append(('corr', k, args, o))
             reqs.append(f'c16{k} {args} {enc_list(o)}')
@@ -103,6 +107,25 @@ def explore(res, rng, n):
             want_eps = np.random.normal(mu, sg, N)
             if len(calls) != 1 or not np.array_equal(calls[0][1], want_eps):
                 fail(res, 'noise is not normal(mu, sigma, numSteps) of the given seed', gname, {'N': N, 'seed': sd, 'mu': mu, 'sigma': sg}, None)
+    # zero spread, non-zero noise mean: the deterministic recurrence with e_t = mu (through the model, integers)
+    for gname in ('ar', 'ma', 'arma', 'arima'):
+        for mu in (2, -3):
+            N = rng.choice([6, 12])
+            phis, thetas, c, obs = [1, -1], [2, 1], 1, [3, -2]
+            if gname == 'ar':
+                out, args = lsg.arNormal(N, obs, phis, mu, 0.0, randomSeed=5), f'{N} {enc_list(obs)} {enc_list(phis)} {enc_list([mu] * N)}'
+            elif gname == 'ma':
+                out, args = lsg.maNormal(N, c, thetas, mu, 0.0, randomSeed=5), f'{N} {c} {enc_list(thetas)} {enc_list([mu] * N)}'
+            elif gname == 'arma':
+                out, args = lsg.armaNormal(N, obs, phis, thetas, mu, 0.0, randomSeed=5), f'{N} {enc_list(obs)} {enc_list(phis)} {enc_list(thetas)} {enc_list([mu] * N)}'
+            else:
+                out, args = lsg.arimaNormal(N, c, phis, thetas, mu, 0.0, randomSeed=5), f'{N} {c} {enc_list(phis)} {enc_list(thetas)} {enc_list([mu] * N)}'
+            res.evaluations += 1
+            res.stat('zero_spread_nonzero_mean')
+            want = core.driver_batch([f'{gname} {args}'])[0]
+            got = enc_list([int(round(float(v))) for v in out]) if all(abs(float(v) - round(float(v))) < 1e-9 for v in out) else repr(list(out))[:200]
+            if got != want:
+                fail(res, 'zero spread: output is not the deterministic recurrence with e_t = mu', gname + 'Normal', {'N': N, 'mu': mu, 'args': args}, [got, want])
     for j in range(max(3, n // 20)):
         N, seed = rng.choice([5, 12]), rng.choice([0, rng.randrange(1000)])
         mu, sigma = rng.choice([0.0, 1.5]), rng.choice([0.0, 1.0, 2.0])
